@@ -1325,6 +1325,11 @@ func (pc ParseContext) compilePackage(ctx context.Context, b ast.Branch, c ast.C
 			if strings.HasPrefix(name, "..") {
 				return nil, fmt.Errorf("import path can not be pointing outside of the script's module directory: %s", name)
 			}
+			if name == "." || name == "/" {
+				// The directory itself is not a file in it: with ".arrai" appended
+				// it would name a sibling of the directory.
+				return nil, fmt.Errorf("import path must name a file, not the directory itself: %s", name)
+			}
 			filePath := strings.Trim(name, "/")
 			if pc.SourceDir == "" {
 				return nil, fmt.Errorf("local import %q invalid; no local context", name)
